@@ -42,6 +42,11 @@ func (r *RNN) Init(n *onnx.NodeProto) error {
 				activations = append(activations, string(activation))
 			}
 
+			// The forward direction needs one activation function.
+			if len(activations) != 1 {
+				return ops.ErrInvalidAttribute(attr.GetName(), r)
+			}
+
 			r.activations = activations
 		case ops.ClipAttr:
 			return ops.ErrUnsupportedAttribute(attr.GetName(), r)
